@@ -8,7 +8,7 @@
    in any order of the enabled internal rules. *)
 From Coq Require Import List ZArith Bool.
 Import ListNotations.
-From Goat Require Import Model.Client Model.Server Proofs.ServerProofs Proofs.ServerInv Proofs.ServerLive Proofs.ServerTrace Proofs.ServerRoute Proofs.ServerDispatch Proofs.ServerProbe Proofs.ServerWriter Proofs.ServerResetW.
+From Goat Require Import Model.Client Model.Server Proofs.ServerProofs Proofs.ServerInv Proofs.ServerLive Proofs.ServerTrace Proofs.ServerRoute Proofs.ServerDispatch Proofs.ServerProbe Proofs.ServerWriter Proofs.ServerResetW Proofs.ServerServing.
 Open Scope Z_scope.
 
 (* no reachable state is crashed: the places where the code dereferences the
@@ -17,6 +17,21 @@ Open Scope Z_scope.
 Theorem C12_no_crash : forall ls s, lrun init ls = Some s -> crashed s = false.
 Proof. exact (srv_no_crash nworkers). Qed.
 Print Assumptions C12_no_crash.
+
+(* does not stop serving: in every run whose environment actions are only envelopes from the peer (of any shape),
+   handler operations and a transport that blocks / unblocks writes - no Stop, no cancellation of Serve's context, no
+   transport read or write failure - the connection is never ended: the connection context and the handlers' parent
+   context stay live, the read loop never leaves serve, the writer and every worker stay alive. (So the hypotheses
+   "hctx_done s = false" / "rd_exited s = false" of the theorems below are CONSEQUENCES of "only the peer acted",
+   whatever it sent: no envelope sequence makes Serve return.) *)
+Theorem C12_stays_serving : forall ls s, forallb peer_only ls = true -> lrun init ls = Some s ->
+  hctx_done s = false /\ cctx_done s = false /\ rd_exited s = false /\ wr s <> WrDead
+  /\ (forall w, nth_error (wk s) w <> Some WkDead).
+Proof.
+  intros ls s Hp H. pose proof (srv_stays_serving nworkers ls s Hp H) as S. destruct (serving_hctx s S) as [A B].
+  destruct S as [_ [_ [_ [_ [_ [_ [G [W K]]]]]]]]. auto.
+Qed.
+Print Assumptions C12_stays_serving.
 
 (* never stalls (Q): in every reachable quiescent state in which every handler that was started has returned,
    the transport does not block writes and the connection has not been ended (no Stop, no failed write, Serve
